@@ -371,7 +371,17 @@ mod raw {
                 }
             }
 
+            let mut deadline_passed = false;
             while self.helper_set != 0 {
+                // recv_timeout() hands over the message of a helper that is
+                // already waiting without looking at the clock, so a child
+                // that writes continuously could keep us here long past the
+                // deadline.  Note when it has passed and stop on the next
+                // turn.
+                if deadline_passed {
+                    return Err(io::Error::new(io::ErrorKind::TimedOut, "timeout"));
+                }
+                deadline_passed = deadline.map_or(false, |d| Instant::now() >= d);
                 match self.recv_until(deadline) {
                     Ok((ident, Payload::EOF)) => {
                         self.helper_set &= !(ident as u8);
